@@ -387,6 +387,11 @@ class World:
                     continue
                 n = int(f)
                 if n in self.mess_seen and self.mess_seen[n].get("complete"):
+                    # the birth time is whatever info/<n> says NOW: re-preprocessing (todo clean-up failed, crash in S4) recreates the file
+                    try:
+                        self.mess_seen[n]["birth"] = int(os.stat(self.h.qpath("info", n)).st_mtime)
+                    except FileNotFoundError:
+                        pass
                     continue
                 rec = self.mess_seen.setdefault(n, {"first_q": self.qcount})
                 try:
